@@ -443,3 +443,55 @@ func init() {
 			}
 		}})
 }
+
+func init() {
+	register(&Rule{ID: "C18.R14", Props: []string{"C18", "C20", "C09"}, Engine: "E3-mustpass",
+		Title:   "whoever ends the read side wakes the readers: every store of a non-nil error into Stream.readErr (deadline expiry, inbound reset, unregistration) is followed on all paths by readNotifier.Signal()/Broadcast() — a reader already parked in ReadSCTP re-checks readErr only when woken, so a 'fast path' that records the error without the wake-up leaves it blocked (e.g. SetReadDeadline with a deadline in the past, the net.Conn idiom for interrupting a read)",
+		MinInst: 3,
+		Run: func(c *RuleCtx) {
+			re := c.field("Stream", "readErr")
+			rn := c.field("Stream", "readNotifier")
+			ks := keyer{}
+			for _, a := range c.P.Writes(re) {
+				if a.Kind != AccWrite || isNilConst(a.Val) {
+					continue
+				}
+				fn := a.Fn
+				wakes := map[ssa.Instruction]bool{}
+				for _, m := range []string{"Signal", "Broadcast"} {
+					for _, ci := range callsOnField(fn, rn, m) {
+						wakes[ci.(ssa.Instruction)] = true
+					}
+				}
+				ok, bad := MustPass(a.Instr, func(x ssa.Instruction) bool {
+					if wakes[x] {
+						return true
+					}
+					// a helper that always wakes
+					return helperAlwaysPasses(x, func(y ssa.Instruction) bool {
+						cj, isCall := y.(ssa.CallInstruction)
+						if !isCall {
+							return false
+						}
+						for _, m := range []string{"Signal", "Broadcast"} {
+							for _, w := range callsOnField(y.Parent(), rn, m) {
+								if w == cj {
+									return true
+								}
+							}
+						}
+						return false
+					}, 0)
+				}, nil)
+				c.Check(ok, ks.key("read-error-wakes-readers@"+c.P.FuncName(fn)), c.Pos(a.Instr), "every path after the store wakes the readers", "readErr is set and a path leaves without waking the readers ("+c.P.InstrPos(bad)+"): a Read blocked on this stream is not interrupted")
+			}
+		}})
+
+	register(&Rule{ID: "C15.R9", Props: []string{"C15"}, Engine: "E2",
+		Title:   "the low-threshold callback stays installed as long as bytes can be released: Stream.onBufferedAmountLow is written only by the OnBufferedAmountLow setter — Close() (after which data written before it is still buffered and acknowledged) or any other internal path must not clear it, or the downward crossing that follows goes unreported",
+		MinInst: 1,
+		Run: func(c *RuleCtx) {
+			n := c.WritersWithin("callback", c.field("Stream", "onBufferedAmountLow"), "Stream.OnBufferedAmountLow")
+			c.Check(n >= 1, "callback-setter", "", fmt.Sprintf("%d write(s), all in the setter", n), "the callback is never installed")
+		}})
+}
